@@ -175,6 +175,43 @@ def fresh_rule(chk, fx):
     chk.floor('counter increments after a take', nsites[0], 10)
 
 
+def all_templates(fn):
+    """[(line, [literal pieces], starts_with_literal)] of every format template in the function"""
+    out = []
+    for n in T.walk(fn['body']):
+        if n.get('k') == 'Call' and (n.get('fn') or '').endswith("Arguments::<'a>::new") and n.get('a'):
+            bs = (T.peel(n['a'][0]).get('v') or {}).get('bytes')
+            if bs:
+                out.append((n.get('l'), fmt_literals(bs), bs[0] < 0x80))
+    return out
+
+
+def paren_rule(chk, fx):
+    chk.rule('C17-paren', 'a Python expression the transpiler returns for an Erg expression is self-contained: every template that is a conditional expression (`X if C else Y`) is '
+                          'wrapped in parentheses — it binds weaker than every operator, so `(if c, do 1, do 2) + 3` written as `1 if c else 2 + 3` computes another value')
+    n = 0
+    for f in fx.file(TR)['fns']:
+        nm = T.norm(f['path'])
+        if not nm.startswith('PyScriptGenerator::'):
+            continue
+        for line, lits, lit_first in all_templates(f):
+            joined = '\x00'.join(lits)
+            is_cond = any(l.strip() == 'if' or l.startswith(' if ') for l in lits) and any(' else ' in l or l.strip() == 'else' or l.startswith(' else') for l in lits) and '\n' not in joined and ':' not in joined
+            is_lambda = False   # `(lambda ..:` is completed by later pushes: not a whole template, not judged here
+            if not (is_cond or is_lambda):
+                continue
+            n += 1
+            opened = lit_first and lits[0].startswith('(')
+            closed = lits[-1].rstrip().endswith(')')
+            key = '%s:%s' % (nm, 'cond' if is_cond else 'lambda')
+            if opened and closed:
+                chk.ok('C17-paren', (key, line), sample='%s: %r' % (nm, lits))
+            else:
+                chk.bad('C17-paren', nm, ('cond' if is_cond else 'lambda') + ':' + '|'.join(lits)[:40], '%s returns the template %r without parentheses: placed under an operator or a call '
+                        'the %s swallows its neighbour (`x = (if c, do 1, do 2) + 3` prints 1 from the script, 4 from the bytecode)' % (nm, lits, 'conditional expression' if is_cond else 'lambda'), TR, line)
+    chk.floor('conditional-expression templates of the transpiler', n, 2)
+
+
 def run(chk):
     fx = F.Facts()
     chk.rule('C17-escape', 'every character the lexer\'s escape handlers can put into a string token that cannot stand raw inside a Python "..." literal '
@@ -193,6 +230,25 @@ def run(chk):
             v = a.get('v') or {}
             domain.append(v.get('char') or v.get('str'))
     domain = [d for d in domain if d]
+    # replacements applied to the string *value* before it is handed to escape_str (transpile_lit); method chains nest receiver-first,
+    # so inside one chain the innermost replace runs first, and the whole pre-chain runs before escape_str
+    pre = []
+    lit_fn = fx.fn(TR, 'PyScriptGenerator::transpile_lit')
+    from_value = False
+    for n_ in T.walk(lit_fn['body']):
+        if n_.get('k') == 'Let' and n_.get('init') is not None and 'escape_str' not in T.show(n_['init']):
+            chain = [c for c in T.calls(n_['init']) if c.get('k') == 'MCall' and c['n'] == 'replace' and c['a']]
+            if chain:
+                for c in chain:
+                    v = T.peel(c['a'][0]).get('v') or {}
+                    pre.append(v.get('char') or v.get('str'))
+                inner = chain[-1]['r']
+                if 'token' not in T.show(inner):
+                    from_value = True
+    pre = [d for d in pre if d]
+    if pre and not from_value:
+        pre = []      # escaping the token text cannot tell the delimiters from the content
+    domain = domain + pre
     loop_form = False
     if not domain:
         # single-pass form: `for c in s.chars() { match c { '\n' => out.push_str("\\n"), .., c => out.push(c) } }`
@@ -225,7 +281,7 @@ def run(chk):
                 chk.ok('C17-utf8', 'chars')
     chk.floor('escape_str replacements', len(domain), 3)
     # method chains are nested receiver-first: the innermost receiver is applied first; T.calls yields outermost first
-    order_applied = list(reversed(domain)) if not loop_form else ['\\'] + domain      # a single pass cannot double an escape
+    order_applied = (list(reversed(pre)) + list(reversed(domain[:len(domain) - len(pre)]))) if not loop_form else ['\\'] + domain      # a single pass cannot double an escape
     for ch, why in UNSAFE.items():
         inst = repr(ch)
         if ch not in produced and '\x01' not in produced:
@@ -242,6 +298,14 @@ def run(chk):
             chk.ok('C17-escape', 'backslash-first')
         else:
             chk.bad('C17-escape', 'PyScriptGenerator::escape_str', 'backslash-order', 'escape_str escapes the backslash after other characters: their escapes get doubled', TR, esc['line'])
+    # the escape written for NUL must not be extensible by the character that follows it
+    short = [n for n in T.walk(esc['body']) if n.get('k') == 'Lit' and isinstance(n.get('v'), dict) and n['v'].get('str') == '\\0']
+    if short:
+        chk.bad('C17-escape', 'PyScriptGenerator::escape_str', 'nul-octal', 'escape_str writes NUL as `\\0`: followed by a digit Python reads a longer octal escape (`"a\\01b"` has '
+                'length 3 in the script, 4 in the bytecode); `\\x00` has a fixed width', TR, short[0].get('l'))
+    else:
+        chk.ok('C17-escape', 'nul-fixed-width')
     fresh_rule(chk, fx)
+    paren_rule(chk, fx)
     return ('Table rule across crates: the characters produced by the escape arms of the three string lexers (typed HIR) against the replace chain of PyScriptGenerator::escape_str. '
             'Behavioural equivalence of the transpiled script and the bytecode is not decided.'), {'exhaustive': True}
